@@ -262,7 +262,8 @@ pub fn to_card(c: &C) -> Card {
         "GetProperty" => CardBody::GetProperty(b2()),
         "Get" => CardBody::Get(b2()),
         "AppendTable" => CardBody::AppendTable(b2()),
-        "ScalarInt" => CardBody::ScalarInt(c.i),
+        // s = "big": 2^53 + i (integers that f64 cannot tell apart; see deep())
+        "ScalarInt" => CardBody::ScalarInt(if c.s == "big" { (1i64 << 53) + c.i } else { c.i }),
         "ScalarFloat" => CardBody::ScalarFloat(match c.s.as_str() {
             "nan" => f64::NAN,
             "inf" => f64::INFINITY,
@@ -353,6 +354,8 @@ pub fn deep(v: Value, depth: usize) -> J {
     use cao_lang::vm::runtime::cao_lang_object::CaoLangObjectBody as B;
     match v {
         Value::Nil => nilv(),
+        // integers around 2^53 are reported as an offset from 2^53 (e = 53): the specification side works with 32-bit integers
+        Value::Integer(i) if i > (1i64 << 53) - 4096 && i < (1i64 << 53) + 4096 => json!({"t":"int","i":i - (1i64 << 53),"e":53,"s":""}),
         Value::Integer(i) => json!({"t":"int","i":i,"e":0,"s":""}),
         Value::Real(r) => real_to_json(r),
         Value::Object(o) => unsafe {
